@@ -100,15 +100,17 @@ def branches(chk) -> Dict[str, Dict[str, str]]:
     return out
 
 
-def check(chk, r_kind, r_spread) -> None:
-    """Obligations for C08 R08.2 (aggregation kinds, coverage, all-missing-stays-missing) and R08.3 (spreading)."""
+def check(chk, r_kind, r_spread, kinds=("cumulative", "instantaneous")) -> None:
+    """Obligations for C08 R08.2 (aggregation kinds, coverage, all-missing-stays-missing) and R08.3 (spreading); C09 R09.1 judges the
+    instantaneous (temperature) branch with the same obligations."""
     fi = chk.repo.func(DPU, "as_freq")
     d = fi.param_defaults()
     import ast as _ast
     atomic = _ast.literal_eval(d["atomic_freq"]) if "atomic_freq" in d else "1 Min"
     default_kind = _ast.literal_eval(d["series_type"]) if "series_type" in d else None
-    r_kind.require(default_kind == "cumulative", f"{fi.key}|default-cumulative", fi.where(), "as_freq's default series_type must be cumulative (meter data)")
-    for kind in ("cumulative", "instantaneous"):
+    if "cumulative" in kinds:
+        r_kind.require(default_kind == "cumulative", f"{fi.key}|default-cumulative", fi.where(), "as_freq's default series_type must be cumulative (meter data)")
+    for kind in kinds:
         ref = reference(kind, "D", atomic)
         outs = interpret(chk, kind)
         main = [o for o in outs if "cols" in o and o["cols"] and not any(v for t, v in o["decisions"] if ".empty" in t)]
@@ -138,6 +140,7 @@ def check(chk, r_kind, r_spread) -> None:
         # an empty input comes back unchanged, a non-series is rejected
         emp = [o for o in outs if any(v for t, v in o["decisions"] if ".empty" in t)]
         r_kind.require(all(o.get("returns") == "S" for o in emp) and bool(emp), f"{fi.key}|empty-passes-through|{kind}", fi.where(), f"an empty series must be returned unchanged; found {str(emp)[:120]}")
-    r_spread.inst(f"{fi.key}|dedup")
-    r_spread.inst(f"{fi.key}|own-forward-interval")
-    r_spread.inst(f"{fi.key}|constant-rate")
+    if "cumulative" in kinds:
+        r_spread.inst(f"{fi.key}|dedup")
+        r_spread.inst(f"{fi.key}|own-forward-interval")
+        r_spread.inst(f"{fi.key}|constant-rate")
